@@ -348,6 +348,28 @@ Proof.
 Qed.
 Print Assumptions C02_C_K_any_axis_locus_sense.
 
+(* outside the guards the modelled code raises instead of emitting a wrong
+   surface: zero normal (ZeroDivisionError), negative t^2 (TypeError of atan
+   on a complex number), collinear points (ValueError) *)
+Theorem C02_inadmissible_cards_raise :
+  (forall D : R, convert_card RS M_P [0; 0; 0; D] = Err EZeroDiv) /\
+  (forall t2 : R, t2 < 0 ->
+     (forall c, convert_card RS M_KX [c; t2] = Err EType /\ convert_card RS M_KY [c; t2] = Err EType /\
+                convert_card RS M_KZ [c; t2] = Err EType) /\
+     (forall x y z, convert_card RS M_K_X [x; y; z; t2] = Err EType /\
+                    convert_card RS M_K_Y [x; y; z; t2] = Err EType /\
+                    convert_card RS M_K_Z [x; y; z; t2] = Err EType)) /\
+  (forall x1 y1 z1 x2 y2 z2 x3 y3 z3 : R,
+     mag2 RS (p3_normal RS (x1, y1, z1) (x2, y2, z2) (x3, y3, z3)) <= eps10 RS ->
+     convert_card RS M_P [x1; y1; z1; x2; y2; z2; x3; y3; z3] = Err EValue).
+Proof.
+  repeat apply conj.
+  - exact p_zero_normal_raises.
+  - exact k_negative_t2_raises.
+  - exact p3_collinear_raises.
+Qed.
+Print Assumptions C02_inadmissible_cards_raise.
+
 (* ---------- numbering of the emitted surfaces ---------- *)
 (* CollectionDict.number_items on a dictionary with distinct positive keys and
    sides +-1: no id is given twice, and the k-th id of the matching of a key
